@@ -124,10 +124,10 @@ def read_file(path):
         return {'kind': 'corrupt', 'sims': [], 'why': f'{type(ex).__name__}'}
 
 
-def run_quietly(batch):
+def run_quietly(batch, n_trials=None):
     try:
         with contextlib.redirect_stdout(io.StringIO()):
-            batch.run(N_TRIALS)
+            batch.run(n_trials or N_TRIALS)
         return ''
     except BaseException as ex:          # KeyboardInterrupt included: run() must end quietly
         sys.settrace(None)
@@ -163,6 +163,33 @@ def one_point(subject, k, work, save_frequency, compressed):
         rec['fresh_raised'] = run_quietly(fresh)
         rec['fresh_file'] = read_file(out2)
         return rec
+    finally:
+        shutil.rmtree(d, ignore_errors=True)
+
+
+def long_run(item):
+    """Scale: one batch taken to more than 10 000 / 2**15 trials in two sessions (the
+    second resumes the file of the first), no interrupt: the file must hold exactly
+    the requested trials and keep the first session's as a prefix."""
+    subject, first, target, save_frequency, compressed, work = item
+    d = os.path.join(work, f'long-{subject}-{target}')
+    os.makedirs(d, exist_ok=True)
+    out = os.path.join(d, 'results.json' + ('.gz' if compressed else ''))
+    try:
+        b1 = build(subject, out, save_frequency, compressed)
+        r1 = run_quietly(b1, first)
+        rec = {'kind': 'point', 'subject': subject + '-long', 'k': 0, 'fired': False, 'where': '',
+               'inside_try': True, 'events': 0, 'target': target, 'nsims': 2, 'first_raised': r1,
+               'after_interrupt': read_file(out)}
+        out2 = os.path.join(d, 'copy.json' + ('.gz' if compressed else ''))
+        shutil.copyfile(out, out2)
+        rec['same_raised'] = run_quietly(b1, target)
+        rec['same_file'] = read_file(out)
+        rec['same_mem'] = [_summary(dict(s.results)) for s in b1._simulations]
+        fresh = build(subject, out2, save_frequency, compressed)
+        rec['fresh_raised'] = run_quietly(fresh, target)
+        rec['fresh_file'] = read_file(out2)
+        return [rec]
     finally:
         shutil.rmtree(d, ignore_errors=True)
 
@@ -204,6 +231,10 @@ def run(tier):
     work = common.scratch_dir('c12pts')
     jobs = plan(tier, work)
     out = common.pmap(sweep, jobs, procs=15)
+    longs = [('matching', 10000, 10005, 2500, False, work), ('matching', 9000, 12003, 500, True, work)]
+    if tier != 'quick':
+        longs += [('unionfind', 2 ** 15 - 3, 2 ** 15 + 6, 5000, False, work), ('matching', 65530, 65541, 30000, True, work)]
+    out += common.pmap(common.safe(long_run), longs, procs=4)
     recs = []
     for o in out:
         if isinstance(o, list):
